@@ -28,12 +28,26 @@ pub fn run_case(case: &Case, target: Option<&'static str>, trace: bool) -> CaseO
     w.trace_on = trace;
     for op in &case.ops {
         w.step(op);
-        if !w.fails.is_empty() {
+        if !w.fails.is_empty() && !w.resync_past_foreign() {
             break;
         }
     }
     w.pending_inject = None;
     w.finish();
+    if let Some(t) = target {
+        if !w.foreign_first.is_empty() {
+            if w.fails.iter().any(|f| f.has(t)) {
+                // reported with its history: it came after another property's failure
+                let first = w.foreign_first[0].clone();
+                for f in w.fails.iter_mut().filter(|f| f.has(t)) {
+                    f.msg = format!("{} (the case had gone on from the observed state after step {}: [{}] {})", f.msg, first.step, first.sig, first.msg);
+                }
+            }
+            else {
+                w.fails = std::mem::take(&mut w.foreign_first);
+            }
+        }
+    }
     CaseOutcome { stats: std::mem::take(&mut w.stats), fails: std::mem::take(&mut w.fails), trace: std::mem::take(&mut w.trace) }
 }
 
